@@ -91,7 +91,7 @@ def write(pid, tier, seed, results, units, fns, violations, others, undecided, v
             if d.get('mode') in ('exec', 'proof'):
                 per_fn[name.split('::', 1)[-1]] = dict(ok=d['ok'], ms=d['ms'], rlimit=d['rlimit'])
         unit_info.append(dict(unit=u, status=r['status'], verus_verified=r.get('verified'), verus_errors=r.get('errors'), smt_ms=r.get('smt_ms'),
-                              wall_s=round(r.get('wall_s', 0), 2), cmd=r.get('cmd'), defines=r.get('asm', {}).get('defines'), functions=per_fn))
+                              wall_s=round(r.get('wall_s', 0), 2), result_reused_for_identical_assembled_text=bool(r.get('cache_hit')), verify_wall_s=round(r.get('verify_wall_s', r.get('wall_s', 0)), 2), cmd=r.get('cmd'), defines=r.get('asm', {}).get('defines'), functions=per_fn))
     rw_kinds = {}
     for rw in rewrites:
         rw_kinds[rw['kind']] = rw_kinds.get(rw['kind'], 0) + 1
